@@ -1,10 +1,11 @@
 import sys
+from decimal import Decimal
 from typing import Any
 
 from xsdata.codegen.mappers.mixins import RawDocumentMapper
 from xsdata.codegen.models import AttrType, Class
 from xsdata.codegen.utils import ClassUtils
-from xsdata.models.enums import Tag
+from xsdata.models.enums import DataType, Tag
 
 
 class DictMapper(RawDocumentMapper):
@@ -73,3 +74,29 @@ class DictMapper(RawDocumentMapper):
                 attr_type = cls.build_attr_type(name, value)
 
             cls.build_attr(target, name, attr_type, value=value)
+
+    @classmethod
+    def build_attr_type(cls, qname: str, value: Any) -> AttrType:
+        """Build an attribute type for the given attribute name and json value.
+
+        A json string remains a string, unless it spells a value that json
+        can only carry as a string, e.g. dates, times and durations. Numbers
+        and booleans have their own json types.
+
+        Args:
+            qname: The attr qualified name
+            value: The attr value
+
+        Returns:
+           The new attr type instance.
+        """
+        attr_type = super().build_attr_type(qname, value)
+        data_type = attr_type.datatype
+        if (
+            isinstance(value, str)
+            and data_type is not None
+            and data_type.type in (int, bool, float, Decimal)
+        ):
+            return AttrType(qname=str(DataType.STRING), native=True)
+
+        return attr_type
